@@ -27,7 +27,8 @@ THEOREM_NAMES = ['run_fuel_mono', 'run_fuel_mono_false', 'word_munch', 'expandTa
                  'rx_plain_blanks', 'rx_info_blanks',
                  # rejections at document level
                  'bad_pil_statement_rejected', 'unbalanced_kernel_close_rejected', 'unbalanced_kernel_open_rejected',
-                 'unbalanced_kernel_rejected_doc', 'kernel_brackets_balanced_sig']
+                 'unbalanced_kernel_rejected_doc', 'kernel_brackets_balanced_sig',
+                 'pil_every_layout', 'document_indent_rt', 'stmt_indent_rt']
 THEOREM_NAMES_EXTRA = ['Dsd.Pil.pil_document_rejected']
 THEOREMS = ['Dsd.C13.' + t for t in THEOREM_NAMES] + THEOREM_NAMES_EXTRA + ['Dsd.PP.Tabs.expandTabs_tok', 'Dsd.PP.Tabs.expandTabs_sep', 'Dsd.PP.Tabs.expand_template', 'Dsd.PP.run_yield', 'Dsd.PP.parseDoc_yield']
 ASSUMPTIONS = [
